@@ -468,6 +468,15 @@ def fit(ctx):
             a = [unparse(x) for x in ls[-1].node.args]
             if a[:1] != ['self._objective']:
                 bad = 'the solver does not minimise self._objective'
+            extra = [k.arg for k in ls[-1].node.keywords
+                     if k.arg not in ('method', 'ftol', 'xtol', 'gtol',
+                                      'max_nfev', 'verbose', 'jac', 'x_scale')
+                     and not (k.arg == 'loss' and isinstance(
+                         k.value, ast.Constant) and k.value.value == 'linear')]
+            if extra:
+                bad = (f'least_squares is called with {extra}: the fit is no '
+                       f'longer the plain least-squares projection (not linear '
+                       f'in the data)')
     if bad:
         res.fail(ctx.finding('FIT-STORE', g, g.node, bad,
                              construct='_fit ' + bad[:30]))
@@ -506,4 +515,12 @@ def fit(ctx):
     return res
 
 
-RULES = [linear, radial_law, norm_law, index_law, fit]
+def no_stale(ctx):
+    from .common import stale_cache
+    return stale_cache(ctx, 'NO-STALE-STATE',
+                       ['ZernikeStandard', 'ZernikeFringe', 'ZernikeNoll'],
+                       'polynomial values depend on what was evaluated before',
+                       min_methods=3)
+
+
+RULES = [no_stale, linear, radial_law, norm_law, index_law, fit]
